@@ -379,6 +379,12 @@ func (d *Ledger) call(fn, caller, rcpt string, args ...[]byte) *world.Call {
 	if caller != "esdtsc" && d.R.Intn(25) == 0 {
 		c.RAE = true // every call flag combination: a flagged return-after-error on an ordinary call
 	}
+	if caller != "esdtsc" && fn == "ESDTTransfer" && !c.RAE {
+		// ... in particular on a transfer to an account that may not be paid (a refund is no licence to pay it)
+		if ri := d.W.Info(rcpt); ri != nil && ri.Shard >= 0 && ri.Shard < len(d.W.Shards) && d.W.Shards[ri.Shard].Oracle.Table[string(ri.Bytes)] == "no" && d.R.Intn(4) == 0 {
+			c.RAE = true
+		}
+	}
 	if d.R.Intn(8) == 0 {
 		// gas locked for the callback of an asynchronous call: below, around and above the prices in force
 		c.GasLocked = []uint64{1, 50, 150, 400, 5000, 1 << 62}[d.R.Intn(6)]
@@ -641,6 +647,9 @@ func (d *Ledger) actUnsetRole() {
 }
 
 func (d *Ledger) actTransfer() {
+	if d.chance(6) && d.actDrainCleared() {
+		return
+	}
 	hs := d.fungHoldings()
 	var from string
 	var tok []byte
@@ -700,6 +709,9 @@ func (d *Ledger) nftHoldings() []holding {
 }
 
 func (d *Ledger) destFor(from string) []byte {
+	if d.chance(4) {
+		return d.W.Addr([]string{"short31", "long33"}[d.R.Intn(2)]) // an address of another length (it still maps to a shard)
+	}
 	n := 40
 	if d.Profile == "payable" {
 		n = 16
@@ -982,6 +994,27 @@ func (d *Ledger) actMulti() {
 	}
 	k := 1 + d.R.Intn(3)
 	dest := d.destFor(from)
+	// several DIFFERENT NFT / SFT items in one message (each payload must stay with its own item)
+	var nfts []holding
+	for _, h := range mine {
+		if h.nonce != 0 && d.q(h.val) >= 1 {
+			nfts = append(nfts, h)
+		}
+	}
+	if len(nfts) >= 2 && d.chance(35) {
+		d.R.Shuffle(len(nfts), func(i, j int) { nfts[i], nfts[j] = nfts[j], nfts[i] })
+		if len(nfts) > 3 {
+			nfts = nfts[:3]
+		}
+		args := [][]byte{dest, nb(uint64(len(nfts)))}
+		for _, h := range nfts {
+			args = append(args, h.tok, nb(h.nonce), d.amt(1))
+		}
+		c := d.call("MultiESDTNFTTransfer", from, from, args...)
+		d.T.Stats["multi-nfts"]++
+		d.record("exec", d.shardOfName(from), c)
+		return
+	}
 	args := [][]byte{dest, nb(uint64(k))}
 	for i := 0; i < k; i++ {
 		if len(mine) > 0 && !d.chance(12) {
@@ -1307,6 +1340,9 @@ func (d *Ledger) actFreeze() {
 	}
 	if d.chance(10) {
 		tok = d.pickTok(d.NFT)
+	}
+	if fa, ft, ok := d.frozenEntry(); ok && fn == "ESDTUnFreeze" && d.chance(60) {
+		a, tok = fa, ft // un-freeze somebody who is frozen (the cleared flag bytes stay in the entry)
 	}
 	caller := "esdtsc"
 	if d.chance(6) {
@@ -1677,6 +1713,9 @@ func (d *Ledger) actForged() {
 		args, ct = args[:2], vmcommon.DirectCall
 	}
 	c := &world.Call{Fn: "ESDTTransfer", Caller: d.W.Addr(caller), Rcpt: d.W.Addr(rcpt), Args: args, Gas: d.gas(), Value: big.NewInt(0), CT: ct}
+	if plain && d.chance(25) {
+		c.RAE = true
+	}
 	d.record("exec", home, c)
 }
 
